@@ -93,12 +93,28 @@ TEXT['C02'] = dict(
          'by the C01/C03/C04 checks); found and fixed Grid.getEta (fix: 8880526).',
     technique='symbolic execution of the constructor per structural case, expression arrays for the numpy formula, z3 (div/mod)')
 TEXT['C03'] = dict(
-    category='other',
-    text='Bounded stand-in only so far: the real LayoutSwapper (scatter, gather and same-distribution branches, redirects) runs on '
-         'the simulated MPI for the groupings used by the driver and their 4-D analogues; after every step each rank block is '
-         'compared with the global field (this also checks that replicas agree and that round trips reproduce the blocks).',
-    note=BOUNDED_NOTE,
-    technique='bounded run-time checking of the real code under simulated MPI')
+    category='proof',
+    text='Two layers on the real text of LayoutSwapper. (1) transpose, _transposeRedirect(_source_intact) and the update of the '
+         'current manager are verified over opaque buffers with ghost content "holds field G in layout L" (same handler, direct '
+         'step, 2-3 step routes, with/without buffer), modular on the single-step contract. (2) The three single-step branches of '
+         '_transpose and _transpose_source_intact are verified in the flat-buffer model with the property as postcondition (every '
+         'local position of the destination block holds the global field at its global index): same distribution = in-process '
+         'transposition; scatter = local slice at the start of my rank in the extra communicator; gather = Allgather of the padded '
+         'blocks, then per member the true block is cut out of its chunk (np.split with an array of cut points: a list of symbolic '
+         'length), transposed and written to its range - loop invariant over the members, covering lemma for "every position is '
+         'some member\'s", final whole-buffer copy in the variant without spare buffer. getAxes is executed on the concrete '
+         'communicator lists of each structural case (rank 2-4 orderings; 2-D -> 1-D with either communicator kept, 1-D -> '
+         'replicated, 4-D analogue); extents, process counts, block lengths/starts and the rank are symbolic. Replica equality and '
+         'the round trip follow: the gathered block is a function of the global field only. Bounded part: the real swapper on a '
+         'simulated MPI for the driver\'s groupings, round trips and random sequences.',
+    note=PROOF_NOTE + 'Assumed: the MPI_Allgather contract (equal counts; chunk r of the receive buffer is member r\'s send buffer); '
+         'the global precondition that every member\'s block holds the field in the source layout (stated on the members\' send '
+         'buffers); distinct array arguments do not overlap; the layouts were built for this process - my rank in the extra '
+         'communicator is the coordinate used by Layout.__init__, positions distributed alike have equal starts (the '
+         'constructor\'s communicator matching, incl. the ambiguous case of equal process counts, is exercised by the bounded '
+         'part only); array elements are reals. The addressing and tiling lemmas are those of C01, re-proved on every run.',
+    technique='sidecar contracts; opaque ghost buffers (dispatch) and flat-view lenses with proved addressing lemmas (branches); '
+              'loop invariant over a list of symbolic length; z3 5.1, z3 4.8, cvc5')
 TEXT['C04'] = dict(
     category='proof',
     text='Grid.setLayout / saveGridValues / freeGridSave / restoreGridValues / getAllData are verified against an inductive class '
